@@ -163,7 +163,7 @@ def build_cases(ctx):
     # long runs: total frame counts that cross 8, 16, 32 (header refresh intervals, library chunk sizes, stdio buffer
     # sizes), written one frame per call and several frames per call, every write followed by flush() where the
     # format buffers, killed after the last write
-    counts = [9, 11, 17, 23, 33] if quick else list(range(1, 41))
+    counts = [9, 11, 17, 23] if quick else list(range(1, 41))
     for fmt, through in CRASH_FORMATS.items():
         for N in counts:
             for chunk in ((1, 4) if quick else (1, 3, 5)):
